@@ -22,6 +22,7 @@ import (
 	"io"
 	"net/http"
 	"net/http/httputil"
+	"strings"
 	"sync"
 )
 
@@ -63,6 +64,9 @@ type responseWriter struct {
 	// noBody: the response cannot have a body (reply to HEAD, status 1xx/204/304): body bytes are
 	// not transmitted, whatever the handler writes and whatever length headers it has set.
 	noBody bool
+	// closeDelimited: the header block that was sent gives the client no way to find the end of the body
+	// (neither a length nor chunked framing): the connection has to be closed after the response.
+	closeDelimited bool
 }
 
 // bodyAllowed reports whether a response to the request method with the status may carry a body.
@@ -94,6 +98,19 @@ func (r *responseWriter) WriteHeader(statusCode int) {
 	if !r.wroteHeader {
 		r.wroteHeader = true
 		r.statusCode = statusCode
+
+		// the framing of the body is decided here, from the headers that are actually sent:
+		// what the handler does to the header map afterwards reaches nobody.
+		header := r.Header()
+		r.noBody = !bodyAllowed(r.request.Method, statusCode)
+		chunked := strings.EqualFold(header.Get("Transfer-Encoding"), "chunked")
+		if chunked && !r.request.ProtoAtLeast(1, 1) {
+			// HTTP/1.0 has no chunked transfer coding: the end of the connection ends the body.
+			header.Del("Transfer-Encoding")
+			chunked = false
+		}
+		r.closeDelimited = !r.noBody && !chunked && header.Get("Content-Length") == ""
+
 		fmt.Fprintf(r.writer, "HTTP/%d.%d %d OK\r\n", r.request.ProtoMajor, r.request.ProtoMinor, statusCode)
 		for key, values := range r.Header() {
 			for _, value := range values {
@@ -102,8 +119,7 @@ func (r *responseWriter) WriteHeader(statusCode int) {
 		}
 		fmt.Fprint(r.writer, "\r\n")
 
-		r.noBody = !bodyAllowed(r.request.Method, statusCode)
-		if !r.noBody && r.Header().Get("Transfer-Encoding") == "chunked" {
+		if !r.noBody && chunked {
 			r.chunkWriter = httputil.NewChunkedWriter(r.writer)
 		}
 	}
@@ -177,14 +193,5 @@ func (r *responseWriter) shouldClose() bool {
 		return true
 	}
 
-	if r.noBody {
-		// ends with its header block.
-		return false
-	}
-
-	header := r.Header()
-	if header.Get("Content-Length") == "" && header.Get("Transfer-Encoding") == "" {
-		return true
-	}
-	return false
+	return r.closeDelimited
 }
